@@ -120,6 +120,33 @@ def main() -> int:
     bad += check("x & M range", T.int_range(("app", "and", c(254), x_)) == (0, 254))
     ea = ("eattr", ("sym", "d", ("enum", "k")), "bit_rep", (2, 4, 8))
     bad += check("eattr range", T.int_range(ea) == (2, 8))
+    # rounds 9-12: integer identities, signedness, spelled-out signatures, nested choices
+    from .. import lib as L
+    from .. import frames as F
+    crc = ("app", "binascii.crc_hqx", ("seq", "raw", (("whole", ("sym", "p", "str")),)), c(0x1021))
+    lo, hi = L.arith("and", crc, c(0xFF)), L.arith("rshift", crc, c(8))
+    bad += check("crc & 0xFF / crc >> 8 are the two bytes", L.byte_atom_of(lo) == ("hbi", crc, 0) and L.byte_atom_of(hi) == ("hbi", crc, 1))
+    swapped = L.arith("or", L.arith("lshift", lo, c(8)), hi)
+    bad += check("(lo << 8) | hi is a sum of bytes", swapped[0] == "lin")
+    bad += check("recombination (hi << 8) | lo == x", L.arith("or", L.arith("lshift", hi, c(8)), lo) == crc)
+    bad += check("byte split of the swapped value", L.arith("mod", swapped, c(256)) == hi and L.arith("floordiv", swapped, c(256)) == lo)
+    u4 = T.uint_of((("hx", M, 280, 282),))
+    bad += check("low hex digit of a byte", L.arith("mod", u4, c(16)) == T.uint_of((("hx", M, 281, 282),)))
+    bad += check("signed view folds constants", L.signed_view(c(0xFFFFFFFF), 32) == c(-1) and L.signed_view(c(5), 32) == c(5))
+    bad += check("signed view keeps unknowns apart", L.signed_view(T.uint_of((("hx", M, 0, 8),)), 32)[:2] == ("app", "signed"))
+    bad += check("signed view of a narrow value is the value", L.signed_view(T.uint_of((("hx", M, 0, 2),)), 32) == T.uint_of((("hx", M, 0, 2),)))
+    body = (("L", "fef0"), ("whole", ("sym", "x", ("hexw", 2))))
+    c1 = ("app", "binascii.crc_hqx", ("seq", "raw", body), c(0x1021))
+    key = T.seq("raw", (("hbi", c1, 0), ("hbi", c1, 1), ("L", "30" * 32)))
+    c2 = ("app", "binascii.crc_hqx", key, c(0x1021))
+    spelled = body + (("hbi", c1, 0), ("hbi", c1, 1), ("hbi", c2, 0), ("hbi", c2, 1))
+    sp = F.split_signed(("seq", "raw", spelled))
+    bad += check("spelled-out signature is the signer's atom", sp is not None and sp[1] is True and sp[0] == body)
+    wrong = body + (("hbi", c1, 1), ("hbi", c1, 0), ("hbi", c2, 0), ("hbi", c2, 1))
+    bad += check("a big-endian first CRC is not a signature", F.split_signed(("seq", "raw", wrong)) is None)
+    p_ = ("truthy", ("sym", "p", "any"))
+    bad += check("nested choice under the same condition", ite(p_, ite(p_, c(1), c(2)), c(3)) == ("ite", p_, c(1), c(3)))
+    bad += check("length lower bound of a choice", L.length_lower_bound(("ite", p_, c(90), ("len", ("seq", "raw", (("L", "aabbccdd"), ("whole", ("sym", "q", "str"))))))) == 4)
     print(f"engine selftest: {bad} failures")
     return 1 if bad else 0
 
